@@ -72,7 +72,11 @@ XresLine ==
   /\ LET P == Trace[l - 1] IN P.k = "op" /\ P.op = "exec" /\ P.t = Line.t /\ Line.r = ExecResult(P.mode, P.x)
   /\ UNCHANGED <<vars, due>>
 \* the worker found its target finished (asyncio done()) or never created and skipped the operation
-SkipLine == IsLine("skip") /\ Adv /\ cur = Line.t /\ ~Live(Line.v) /\ UNCHANGED <<vars, due>>
+\* (the id of a trigger / service task is unknown to everybody before its first step)
+SkipLine ==
+  /\ IsLine("skip") /\ Adv /\ cur = Line.t
+  /\ ~Live(Line.v) \/ (st[Line.v] = "new" /\ kind[Line.v] # "create")
+  /\ UNCHANGED <<vars, due>>
 EnvSkipLine == IsLine("envskip") /\ Adv /\ cur = None /\ ~Live(Line.t) /\ UNCHANGED <<vars, due>>
 \* what task.wait({v}) shows of v: cancelled / a value / None
 Seen(v) == IF outcome[v] = "cancelled" THEN "cancelled"
